@@ -246,7 +246,7 @@ class Sampler:
                 return dflt
             if fs["kind"] == "struct" and not fs["arr"] and not fs["nul"]:
                 z = zero_value(fs)
-                if z != dflt and r.random() < (0.7 if self.profile == "max" else 0.3):
+                if z != dflt and r.random() < (1.0 if self.profile == "max" else 0.3):
                     return z          # all-zero struct where the declared defaults are not zero
         if fs["arr"]:
             if fs["nul"] and self._null_roll() and not (tagged and "null" not in dflt):
